@@ -1,5 +1,6 @@
 // Unit `gz`: src/lib.rs should_gzip (C16, C17) over the opaque `str` primitives; parse_qvalue is a callee contract
 // (its lexing of real strings is checked by the Kani unit K4, bounded).
+#![feature(allocator_api)]
 use vstd::prelude::*;
 verus! {
 
